@@ -122,9 +122,14 @@ pub proof fn lemma_spliced_empty(old: Seq<(Seq<char>, Seq<char>)>, b: BV, g: boo
 '''
 
 TEMPLATE = common.HEAD + common.STR_SHIMS + common.TOKEN_TYPES + SPLICE_SPEC + r'''
-pub uninterp spec fn spec_need_expand_brace(t: Seq<char>) -> bool;
+''' + common.NESTING_SPEC + common.NESTING_TWIN + r'''
+//@TYPE MAX_NESTING
+// the gate of the brace pass (verified below): the pattern literal finds a group with a comma (uninterpreted, axiom brace_gates) AND the word is not nested deeper than the limit
+pub uninterp spec fn spec_brace_ptn() -> Seq<char>;
+pub open spec fn spec_need_expand_brace(t: Seq<char>) -> bool { spec_re(spec_brace_ptn(), t) && nest(t, '{', '}') <= MAX_NESTING as int }
 #[verifier::external_body]
-pub fn need_expand_brace(line: &str) -> (r: bool) ensures r == spec_need_expand_brace(line@) { unimplemented!() }
+pub fn vx_brace_ptn() -> (r: &'static str) ensures r@ == spec_brace_ptn() { unimplemented!() }
+//@FN need_expand_brace
 
 // ---- brace parser helpers ----
 #[verifier::external_body]
@@ -605,5 +610,10 @@ brace_getgroup = Fn(S, 'brace_getgroup', ret='r', rewrites=BRACE_RW, props=('C12
            },
 )
 
-UNIT = Unit('U-EXP1', TEMPLATE, fns=[common.has_operator_fn(), common.in_assignment_prefix_fn(), brace_getitem, brace_getgroup, expand_brace, expand_glob, expand_brace_range], props=('C12', 'C13', 'C01', 'C05'))
+need_brace = Fn(S, 'need_expand_brace', ret='r', props=('C12', 'C05'),
+    pre_rewrites=[Rw(r'libs::re::re_contains\(line, r#"[^#]*"#\)', 're_contains(line, vx_brace_ptn())', regex=True, rule='R6', why='the pattern literal through an opaque constant (axiom brace_gates validates the literal itself)'),
+                  Rw('tools::nesting_depth(', 'nesting_depth(', rule='R0'), Rw('tools::MAX_NESTING', 'MAX_NESTING', rule='R0')],
+    ensures=[('C12.gate.brace.the_pattern_matches_and_the_word_is_within_the_nesting_limit', 'r == spec_need_expand_brace(line@)'),
+             ('C05.gate.brace.the_recursive_parser_is_given_only_words_within_the_nesting_limit', "r ==> nest(line@, '{', '}') <= MAX_NESTING as int")])
+UNIT = Unit('U-EXP1', TEMPLATE, fns=[common.has_operator_fn(), common.in_assignment_prefix_fn(), need_brace, brace_getitem, brace_getgroup, expand_brace, expand_glob, expand_brace_range], types=[TypeItem('src/tools.rs', 'const', 'MAX_NESTING')], props=('C12', 'C13', 'C01', 'C05'))
 TRUSTED = common.TRUSTED_STR + common.TRUSTED_TOKEN + []
